@@ -1,0 +1,50 @@
+//go:build verif
+
+// Contracts of package deps for the gocv verifier (properties C05, C06, C07).
+// Comment-only: no Go code is compiled from this file.
+//
+// block_instrs(b): the instructions of the b-th block of the verifier's
+// corpus (sequences over an alphabet of lifted instruction templates, placed
+// contiguously from blockbase()). After NewCode has built the code model, the
+// verifier visits every arrangement of the block that is reachable through
+// moves the real (*block).Move accepts, and tries every Move(from, to) with
+// from, to in -1..n in each of them. moves(kind) is the conjunction over all
+// of that of the facts of one kind:
+//   same-behaviour          the arrangement, executed from an arbitrary machine
+//                           state, ends in the same registers, memory and
+//                           instruction pointer as the original order
+//   independent-swap        Move(i, i+1) and Move(i+1, i) are accepted when the
+//                           two instructions are independent (the conditions of
+//                           property C06, computed from declared reads/writes)
+//   accepted-iff-within-bounds  Move(from, to) succeeds iff both positions are
+//                           valid and LowerBound(from) <= to <= UpperBound(from)
+//   rejected-unchanged      a rejected move leaves every heap object as it was
+//   shift-by-one            an accepted move rotates the instructions between
+//                           from and to by one
+//   index, addresses, lookup, own-bounds, deps-order, queries-change-nothing
+//                           the block invariant: blockIdx is the position;
+//                           addresses are contiguous from the block start;
+//                           block.Address and Code.Address find each instruction
+//                           at its current address and nothing in between; every
+//                           instruction is within its own reported bounds and
+//                           after every instruction it depends on; the query
+//                           methods modify nothing
+
+package deps
+
+//@ func NewCode
+//@   enum b in BLOCKS
+//@   input:entrypoint blockbase()
+//@   input:seq block_instrs(b)
+//@   ensures[builds-one-block] result1 == nil && one_block()
+//@   ensures[reordering-preserves-behaviour] moves("same-behaviour")
+//@   ensures[independent-adjacent-swap-accepted] moves("independent-swap")
+//@   ensures[move-accepted-iff-within-reported-bounds] moves("accepted-iff-within-bounds")
+//@   ensures[rejected-move-changes-nothing] moves("rejected-unchanged")
+//@   ensures[accepted-move-shifts-by-one] moves("shift-by-one")
+//@   ensures[index-is-position] moves("index")
+//@   ensures[contiguous-addresses] moves("addresses")
+//@   ensures[address-lookup-finds-each-instruction] moves("lookup")
+//@   ensures[within-own-bounds] moves("own-bounds")
+//@   ensures[follows-its-dependencies] moves("deps-order")
+//@   ensures[queries-change-nothing] moves("queries-change-nothing")
